@@ -684,8 +684,8 @@ class Gridder(GeospatialGrid):
         slopes, intercepts = calculate_line_parameters(lats, lons)
 
         # Get the indices of the grid cells where trajectory points are located
-        lat_grid_indices = np.searchsorted(self.grid_latitudes, lats) - 1
-        lon_grid_indices = np.searchsorted(self.grid_longitudes, lons) - 1
+        lat_grid_indices = _cell_indices(self.grid_latitudes, lats)
+        lon_grid_indices = _cell_indices(self.grid_longitudes, lons)
 
         # Get index range for each trajectory segment
         lat_index_ranges = np.column_stack(
@@ -869,11 +869,11 @@ class Gridder(GeospatialGrid):
         ) / 2
 
         # lat and lon indices of the gridcells where midpoints are located
-        midpoint_lat_indices = np.searchsorted(self.grid_latitudes, midpoints_lats) - 1
+        midpoint_lat_indices = _cell_indices(self.grid_latitudes, midpoints_lats)
         midpoint_lat_indices = np.where(
             np.isnan(midpoints_lats), np.nan, midpoint_lat_indices
         )
-        midpoint_lon_indices = np.searchsorted(self.grid_longitudes, midpoints_lons) - 1
+        midpoint_lon_indices = _cell_indices(self.grid_longitudes, midpoints_lons)
         midpoint_lon_indices = np.where(
             np.isnan(midpoints_lons), np.nan, midpoint_lon_indices
         )
@@ -903,22 +903,22 @@ class Gridder(GeospatialGrid):
     def _trajectory_time_grid_indices(self, times: NDArray) -> NDArray:
         if self.grid_times is None:
             raise ValueError("No time grid")
-        return (np.searchsorted(self.grid_times, times) - 1).astype(int)
+        return _cell_indices(self.grid_times, times).astype(int)
 
     def _trajectory_altitude_grid_indices(self, altitudes: NDArray) -> NDArray:
         if self.grid_altitudes is None:
             raise ValueError("No altitude grid")
-        return (np.searchsorted(self.grid_altitudes, altitudes) - 1).astype(int)
+        return _cell_indices(self.grid_altitudes, altitudes).astype(int)
 
     def _trajectory_segment_time_grid_indices(self, times: NDArray) -> NDArray:
         if self.grid_times is None:
             raise ValueError("No time grid")
-        return (np.searchsorted(self.grid_times, times) - 1)[:-1]
+        return _cell_indices(self.grid_times, times)[:-1]
 
     def _trajectory_segment_altitude_grid_indices(self, altitudes: NDArray) -> NDArray:
         if self.grid_altitudes is None:
             raise ValueError("No altitude grid")
-        return (np.searchsorted(self.grid_altitudes, altitudes) - 1)[:-1]
+        return _cell_indices(self.grid_altitudes, altitudes)[:-1]
 
     def _cell_idxs_touched_by_trajectory_with_state_and_integrated_vars(
         self,
@@ -1383,6 +1383,15 @@ class Gridder(GeospatialGrid):
                 state_variable_values,
                 integrated_variable_values,
             )
+
+
+def _cell_indices(grid: NDArray, values: NDArray) -> NDArray:
+    """Index of the grid cell ``(grid[i], grid[i + 1]]`` containing each value.
+
+    A value exactly on the lowest grid line belongs to the first cell (index 0);
+    without the clamp it would get index -1, which numpy indexing silently wraps
+    around to the last grid line."""
+    return np.maximum(np.searchsorted(grid, values) - 1, 0)
 
 
 def great_circle_distance(
